@@ -177,3 +177,36 @@ class MPPoolExecutor(multiprocessing.pool.Pool, _ExecCore):
 
     def __reduce__(self):
         raise NotImplementedError
+
+
+class _IdxFuture(__import__("concurrent.futures").futures.Future):
+    """a real concurrent.futures.Future whose hash is its submission index, so that sets of them
+    iterate deterministically (as_completed puts its futures in a set)"""
+
+    def __init__(self, idx):
+        super().__init__()
+        self._idx = idx
+
+    def __hash__(self):
+        return self._idx
+
+    def __eq__(self, other):
+        return self is other
+
+
+class EagerFutureExecutor:
+    """submit-style pool that runs each task at submission and returns real, already finished Future
+    objects: compatible with code that collects results with f.result() in submission order and with
+    code that (wrongly, for ordered results) iterates concurrent.futures.as_completed(fs)"""
+
+    def __init__(self):
+        self.ran = 0
+
+    def submit(self, fn, *args, **kwds):
+        f = _IdxFuture(self.ran)
+        self.ran += 1
+        try:
+            f.set_result(fn(*args, **kwds))
+        except Exception as e:  # noqa
+            f.set_exception(e)
+        return f
